@@ -51,10 +51,15 @@ OVER_REGIONS = {
                     "onto ASCII letters)")],
     "TIME": [rx.Region("double-colon", r"[\s\S]*::[\s\S]*", "'::' before the seconds is accepted ((:?: instead of (?::)")],
     "DATETIME": [
+        rx.Region("year-0000", r"0000[\s\S]*", "year 0000 is accepted: the ABNF admits it (\"0\" 3DIGIT) but it has no Python calendar "
+                  "value, so the reference language used here starts at year 0001 - not an over-acceptance with respect to the ABNF"),
         rx.Region("double-colon", r"[\s\S]*::[\s\S]*", "'::' before the seconds is accepted ((:?: instead of (?::)"),
         rx.Region("month-or-day-00", rf"{_D}{{4}}-(?:00-{_D}{_D}|{_D}{_D}-00)[\s\S]*", "month 00 / day 00 are accepted"),
     ],
-    "DATE": [rx.Region("month-or-day-00", rf"{_D}{{4}}-(?:00-{_D}{_D}|{_D}{_D}-00)", "month 00 / day 00 are accepted")],
+    "DATE": [
+        rx.Region("year-0000", r"0000[\s\S]*", "year 0000 is accepted: the ABNF admits it (\"0\" 3DIGIT) but it has no Python calendar "
+                  "value, so the reference language used here starts at year 0001 - not an over-acceptance with respect to the ABNF"),
+        rx.Region("month-or-day-00", rf"{_D}{{4}}-(?:00-{_D}{_D}|{_D}{_D}-00)", "month 00 / day 00 are accepted")],
     "DURATION": [rx.Region("duration-without-component", r"duration'[+-]?P(?:[^']*T)?'",
                            "a duration with no component at all, or with a 'T' that no time component follows, is accepted")],
     "INTEGER": [rx.Region("integer-over-19-digits", r"[+-]?[0-9]{20,}", "more digits than int64Value (1*19DIGIT) allows")],
@@ -504,7 +509,7 @@ def reachability(run: Run, header: str, items: List[Item], timeout: float = 20.0
         again = [n for n, r in res.items() if r.state == "RUNNER_ERR"]
         if again:
             res.update(hm.run(again, per_condition_timeout=timeout))
-    bad = [n for n, r in res.items() if r.state != chx.POST_FAIL]
+    bad = [n for n, r in res.items() if r.state not in (chx.POST_FAIL, chx.EXEC_ERR)]   # a twin that raises was reached too
     run.extra.setdefault("reachability_twins", {})[items[0].family.split(":")[0] if items else "-"] = {
         "twins": len(items), "reachable": len(items) - len(bad)}
     for n in bad:
